@@ -1727,10 +1727,12 @@ class TimePoint:
     def __ge__(self, other: "TimePoint") -> bool:
         return self._cmp(other, "ge")
 
-    def __sub__(self, other):
+    def __sub__(self, other, _is_ordered=False):
         if isinstance(other, TimePoint):
-            if other > self:
-                return -1 * (other - self)
+            if not _is_ordered and other > self:
+                # N.B. Compare only once: float noise in decimal time units
+                # can make each operand compare greater than the other.
+                return -1 * other.__sub__(self, _is_ordered=True)
             # N.B. 24:00 is 00:00 on the following day
             me = self._normalise_end_of_day()
             other = other._normalise_end_of_day().to_time_zone(
